@@ -1,4 +1,4 @@
-import VyxalModel.Lemmas.Compile2
+import VyxalModel.Lemmas.Sim
 /-!
 # The hand-written templates of the closed core
 
